@@ -2,6 +2,7 @@ package ddb
 
 import (
 	"context"
+	"net/url"
 
 	"github.com/aws/aws-sdk-go-v2/aws"
 	"github.com/aws/aws-sdk-go-v2/service/dynamodb"
@@ -88,6 +89,9 @@ func err2(err error) error {
 		if e.Code == ErrConditional {
 			return &types.ConditionalCheckFailedException{Message: aws.String(e.Msg)}
 		}
+		if e.Code == ErrTimeout {
+			return &smithy.OperationError{ServiceID: "DynamoDB", OperationName: "PutItem", Err: &url.Error{Op: "Post", URL: "https://dynamodb.us-west-2.amazonaws.com/", Err: timeoutErr{e.Msg}}}
+		}
 		return &smithy.GenericAPIError{Code: e.Code, Message: e.Msg}
 	}
 	return err
@@ -131,3 +135,12 @@ func (c V2) Query(_ context.Context, in *dynamodb.QueryInput, _ ...func(*dynamod
 
 // Options implements the SDK's DynamoDBClient interface.
 func (c V2) Options() dynamodb.Options { return dynamodb.Options{Region: c.T.Region} }
+
+// timeoutErr is what net/http reports when the client's time-out elapses before the response arrives.
+type timeoutErr struct{ msg string }
+
+func (t timeoutErr) Error() string {
+	return "net/http: request canceled (Client.Timeout exceeded while awaiting headers): " + t.msg
+}
+func (timeoutErr) Timeout() bool   { return true }
+func (timeoutErr) Temporary() bool { return true }
